@@ -1,4 +1,4 @@
-import BoltonsVerif.C06.Proofs
+import BoltonsVerif.C06.Roundtrip
 /-
 C06 — property theorems for the URL quoting / parsing / rendering model.
 
@@ -71,7 +71,8 @@ example : unquote [37, 67, 51, 37, 65, 57, 37, 122, 122, 37, 52, 233, 37] = [233
     this host to itself. -/
 theorem roundtrip_full (env : Env) (u : URL) (hW : WF env u) (hnil : env.nfc [] = []) :
     ∃ t, toText env true u = .ok t ∧ URL.ofText env t = .ok (normal env u) :=
-  ⟨fullText env u, toText_full env u hW hnil, ofText_fullText env u hW hnil⟩
+  ⟨fullText env u, toText_urlText env true env.nfc u (hW.toWFq hnil),
+   ofText_urlText env true env.nfc u (hW.toWFq hnil) hnil⟩
 
 /-- the same, component by component -/
 theorem no_leak (env : Env) (u : URL) (hW : WF env u) (hnil : env.nfc [] = []) :
@@ -81,38 +82,59 @@ theorem no_leak (env : Env) (u : URL) (hW : WF env u) (hnil : env.nfc [] = []) :
       v.pathParts = u.pathParts.map env.nfc ∧
       v.query = u.query.map (fun kv => (env.nfc kv.1, kv.2.map env.nfc)) ∧
       v.fragment = env.nfc u.fragment :=
-  ⟨fullText env u, normal env u, toText_full env u hW hnil, ofText_fullText env u hW hnil,
+  ⟨fullText env u, normal env u, toText_urlText env true env.nfc u (hW.toWFq hnil),
+   ofText_urlText env true env.nfc u (hW.toWFq hnil) hnil,
    rfl, rfl, rfl, rfl, rfl, rfl, rfl, rfl, rfl⟩
 
-/-- the fully quoted rendering of such a URL consists of the scheme, `://`, and characters none of
-    which is a delimiter for the component it stands in (the `Scanned` facts: the parser cuts the
-    text exactly at the component boundaries) -/
+/-- the parser cuts the fully quoted rendering exactly at the component boundaries (no character
+    of a rendered component is a delimiter for the position it stands in) -/
 theorem render_boundaries (env : Env) (u : URL) (hW : WF env u) (hnil : env.nfc [] = []) :
-    Scanned (fullText env u) u.scheme (uiText env u ++ (u.host ++ portText u))
+    Scanned (fullText env u) u.scheme (uiText env u ++ hostinfo u)
       (pathText env true u.pathParts) (queryText env true u.query)
-      (quotePart .fragment env.nfc true u.fragment) := fullText_scanned env u hW hnil
+      (quotePart .fragment env.nfc true u.fragment) :=
+  urlText_scanned env true env.nfc u (hW.toWFq hnil)
 
-/-- FULL STATEMENT (not proved): for every text `t` that is a well-formed RFC 3986 URI or relative
-    reference, `URL.ofText env t = .ok u → toText env true u = .ok t₁ → URL.ofText env t₁ = .ok u₁ →
-    toText env true u₁ = .ok t₁`.
-    PROVED PART: the fixed point for every URL that satisfies `WF` (absolute URL with scheme, non-empty
-    non-IPv6 host, absolute path), in particular for every parsed URL of that shape; relative
-    references, scheme-only / host-less URLs and IPv6 literals are covered by the correspondence and
-    the oracle only. -/
+/-- FULL STATEMENT (not proved in this generality): for every text `t` that is a well-formed RFC 3986
+    URI or relative reference, `URL.ofText env t = .ok u → toText env true u = .ok t₁ →
+    URL.ofText env t₁ = .ok u₁ → toText env true u₁ = .ok t₁`.
+    PROVED PART: render → parse → render is the identity on the text for every URL that satisfies
+    `WF` (scheme; host a registered name / IPv4 literal or a bracketed IPv6 literal; valid port;
+    absolute path) — in particular for every parsed URL of that shape; relative references,
+    scheme-only / host-less URLs and IDN hosts are covered by the correspondence and the oracle only. -/
 theorem render_fixed_full_partial (env : Env) (hl : NfcLaws env.nfc) (u : URL) (hW : WF env u) :
-    ∃ t u₁, toText env true u = .ok t ∧ URL.ofText env t = .ok u₁ ∧ toText env true u₁ = .ok t := by
-  refine ⟨fullText env u, normal env u, toText_full env u hW hl.nil, ofText_fullText env u hW hl.nil, ?_⟩
-  rw [toText_full env (normal env u) (normal_WF env hl u hW) hl.nil, normal_fullText env hl u]
+    ∃ t u₁, toText env true u = .ok t ∧ URL.ofText env t = .ok u₁ ∧ toText env true u₁ = .ok t :=
+  have h := render_fixed env true env.nfc hl
+    (fun c s => by simp [quotePart, quoteFull_idem _ hl.idem]) hl.idem hl.nil u (hW.toWFq hl.nil)
+  ⟨fullText env u, normal env u, h.1, h.2.1, h.2.2⟩
 
-/-- … and from then on parsing and rendering change nothing any more -/
-theorem parse_render_idempotent_partial (env : Env) (hl : NfcLaws env.nfc) (u : URL) (hW : WF env u) :
-    URL.ofText env (fullText env u) = .ok (normal env u) ∧
-    URL.ofText env (fullText env (normal env u)) = .ok (normal env u) := by
-  refine ⟨ofText_fullText env u hW hl.nil, ?_⟩
-  rw [normal_fullText env hl u]
-  exact ofText_fullText env u hW hl.nil
+/-- minimal quoting: the URL comes back as it is (userinfo, which is always fully quoted,
+    NFC-normalised) whenever no path segment, query key / value or fragment contains a `%` -/
+theorem roundtrip_min (env : Env) (u : URL) (hW : WFmin env u) (hnil : env.nfc [] = []) :
+    ∃ t, toText env false u = .ok t ∧ URL.ofText env t = .ok (normalMin env u) :=
+  ⟨minText env u, toText_urlText env false id u hW.toWFq, ofText_urlText env false id u hW.toWFq hnil⟩
 
-/-! non-vacuity: a concrete environment and URL satisfying `WF`, with hostile component texts -/
+/-- FULL STATEMENT (not proved in this generality): as above with `toText env false`, for every
+    well-formed `t` whose decoded components contain no `%`.
+    PROVED PART: every URL satisfying `WFmin` (same shape as `WF`; no `%` in path segments, query
+    keys / values, fragment — username, password and host may contain `%`). -/
+theorem render_fixed_min_partial (env : Env) (hl : NfcLaws env.nfc) (u : URL) (hW : WFmin env u) :
+    ∃ t u₁, toText env false u = .ok t ∧ URL.ofText env t = .ok u₁ ∧ toText env false u₁ = .ok t :=
+  have h := render_fixed env false id hl (fun _ _ => rfl) (fun _ => rfl) rfl u hW.toWFq
+  ⟨minText env u, normalMin env u, h.1, h.2.1, h.2.2⟩
+
+/-- the `%` exclusion of the minimal-mode theorems is necessary: a path segment `%41` renders
+    minimally as `%41` and comes back as `A` -/
+theorem min_needs_no_pct :
+    ∃ (env : Env) (u v : URL) (t : Text), toText env false u = .ok t ∧ URL.ofText env t = .ok v ∧
+      u.pathParts = [[], [37, 52, 49]] ∧ v.pathParts = [[], [65]] :=
+  ⟨⟨id, fun _ => false, fun _ => false, some, some⟩,
+   { scheme := [104], netlocSep := true, username := [], password := [], family := .none, host := [104],
+     port := none, pathParts := [[], [37, 52, 49]], query := [], fragment := [] },
+   { scheme := [104], netlocSep := true, username := [], password := [], family := .none, host := [104],
+     port := none, pathParts := [[], [65]], query := [], fragment := [] },
+   [104, 58, 47, 47, 104, 47, 37, 52, 49], by decide +kernel, by decide +kernel, rfl, rfl⟩
+
+/-! non-vacuity: a concrete environment and URL satisfying `WF` / `WFmin`, with hostile texts -/
 
 /-- identity normaliser, no IP hosts, identity idna -/
 def env0 : Env := ⟨id, fun _ => false, fun _ => false, some, some⟩
@@ -128,9 +150,7 @@ theorem wf_u0 : WF env0 u0 where
   scheme_ne := by decide
   scheme_ok := by decide
   host_ne := by decide
-  host_ok := by decide
-  family_ok := by decide
-  idna_enc := rfl
+  host_form := .name (by decide) (by decide) (fun _ => rfl)
   idna_dec := rfl
   port_ok := Or.inr ⟨8042, rfl, by decide, by decide⟩
   path_abs := ⟨_, rfl⟩
@@ -141,6 +161,51 @@ theorem wf_u0 : WF env0 u0 where
     rcases hkv with rfl | rfl
     · exact ⟨by decide, by intro v hv; cases hv; decide⟩
     · exact ⟨by decide, by intro v hv; cases hv; decide⟩⟩
+
+theorem wfmin_u0 : WFmin env0 u0 where
+  scheme_ne := by decide
+  scheme_ok := by decide
+  host_ne := by decide
+  host_form := .name (by decide) (by decide) (fun h => by cases h)
+  idna_dec := rfl
+  port_ok := Or.inr ⟨8042, rfl, by decide, by decide⟩
+  path_abs := ⟨_, rfl⟩
+  query_ok := by decide
+  user_scalar := by decide
+  pw_scalar := by decide
+  no_pct_parts := by decide
+  no_pct_query := by
+    intro kv hkv
+    simp only [u0, List.mem_cons, List.mem_nil_iff, or_false] at hkv
+    rcases hkv with rfl | rfl
+    · exact ⟨by decide, by intro v hv; cases hv; decide⟩
+    · exact ⟨by decide, by intro v hv; cases hv; decide⟩
+  no_pct_frag := by decide
+
+/-- an IPv6 host: `ws://[::1]:81/%5B?%5D` (with an `inet_pton` that accepts `::1`) -/
+def env6 : Env := ⟨id, fun _ => false, fun h => h == [58, 58, 49], some, some⟩
+
+def u6 : URL :=
+  { scheme := [119, 115], netlocSep := false, username := [], password := [], family := .inet6,
+    host := [58, 58, 49], port := some 81, pathParts := [[], [91]], query := [([93], none)], fragment := [] }
+
+theorem wf_u6 : WF env6 u6 where
+  scheme_ne := by decide
+  scheme_ok := by decide
+  host_ne := by decide
+  host_form := .v6 rfl (by decide) (by decide) (by decide)
+  idna_dec := rfl
+  port_ok := Or.inr ⟨81, rfl, by decide, by decide⟩
+  path_abs := ⟨_, rfl⟩
+  query_ok := by decide
+  scalars := ⟨by decide, by decide, by decide, by decide, by
+    intro kv hkv
+    simp only [u6, List.mem_cons, List.mem_nil_iff, or_false] at hkv
+    subst hkv
+    exact ⟨by decide, by intro v hv; cases hv⟩⟩
+
+example : (toText env6 true u6).toOption = some
+    [119, 115, 58, 47, 47, 91, 58, 58, 49, 93, 58, 56, 49, 47, 37, 53, 66, 63, 37, 53, 68] := by decide +kernel
 
 example : NfcLaws env0.nfc := ⟨rfl, fun _ => rfl, fun _ h => h⟩
 
